@@ -1,5 +1,5 @@
 """C03 — the approx. marker and digit truncation never misstate a value."""
-import time
+import re, time
 from fractions import Fraction as F
 from math import gcd
 from vlib import core, fmtcases as fc, gens
@@ -241,6 +241,9 @@ def run_roots(ctx, h, quick):
 APPROX_LEAVES = ["sqrt 2", "2^(1/3)", "ln 2", "sin 1", "e", "exp 1", "cos 2", "sqrt(1/3)", "log10 3", "pi^2", "sqrt pi"]
 
 def gen_mix(r, depth):
+    return _gen_mix(r, depth)
+
+def _gen_mix(r, depth):
     """(text, kind, value): kind 'rat' (exact rational v), 'pi' (v * pi), 'irr' (irrational or computed from an approximation)"""
     if depth == 0 or r.random() < 0.2:
         c = r.random()
@@ -258,12 +261,17 @@ def gen_mix(r, depth):
     op = r.choice("+-*/")
     ta, ka, va = a; tb, kb, vb = b
     text = f"({ta} {op} {tb})"
+    if ka == "free" or kb == "free":
+        return (text, "free", None)
     if ka == "irr" or kb == "irr":
         if op == "/" and kb != "irr" and vb == 0: return a
         return (text, "irr", None)
     if op in "+-":
         if ka == kb:
-            return (text, ka, va + vb if op == "+" else va - vb)
+            v = va + vb if op == "+" else va - vb
+            if ka == "pi" and v == 0:
+                return (text, "free", None)      # `pi - pi`: fend computes it approximately and says so (over-marking is allowed); not constrained
+            return (text, ka, v)
         # rational +- pi multiple: irrational unless the pi multiple is zero
         if (ka == "pi" and va == 0) or (kb == "pi" and vb == 0):
             return (text, "irr", None)       # conservative: fend may or may not mark; we do not constrain
@@ -271,6 +279,7 @@ def gen_mix(r, depth):
     if op == "*":
         if ka == "rat" and kb == "rat": return (text, "rat", va * vb)
         if ka == "pi" and kb == "pi": return (text, "irr", None)
+        if va * vb == 0: return (text, "rat", F(0))          # a zero multiple of pi is the exact rational 0
         return (text, "pi", va * vb)
     # division
     if vb == 0: return a
@@ -290,7 +299,9 @@ def run_mix(ctx, h, quick):
     exact = ctx.run_lines_robust(h, ["eval"], [t[0] + " to exact" for t in trees], env={"HARNESS_LINE_TIMEOUT_S": "20"})
     dist = {"rat": 0, "pi": 0, "irr": 0, "errors": 0, "rat_marked_plain": 0}
     for (text, kind, v), o, oe in zip(trees, plain, exact):
-        dist[kind] += 1
+        dist[kind] = dist.get(kind, 0) + 1
+        if kind == "free":
+            continue
         if not o.startswith("ok "):
             dist["errors"] += 1; continue
         marked = o.startswith("ok approx. ")
@@ -328,6 +339,46 @@ def run_mix(ctx, h, quick):
                       "`to exact`; python tracks whether the true value is rational (and which), a pi multiple, or irrational / computed from an approximation",
                       2 * len(trees), len(set(t[0] for t in trees)), dist, [t[0] for t in trees[:3]], time.time() - t0)
 
+
+def run_unit_roots(ctx, h, quick):
+    """roots of quantities WITH units: exactness has to survive unit bookkeeping and conversion"""
+    from vlib import unitroots
+    t0 = time.time()
+    r = ctx.rng
+    cases = [unitroots.gen(r) for _ in range(250 if quick else 5000)]
+    cases += [("(1 kJ) / (1 kg)", "m/s", "m^2/s^2"), ("(1 km) * (1 m)", "m", None), ("(9 kN) / ((1 g) / (1 m))", "m/s", "m^2/s^2"), ("1 hectare", "m", None),
+              ("(1 km) * (1 km)", "m", None), ("(4 J) / (1 kg)", "m/s", "m^2/s^2")]
+    lines = []
+    for x, t, t2 in cases:
+        t2 = t2 or f"{t}^2"
+        lines += [f"@noapprox (({x}) to {t2}) to fraction", f"sqrt({x}) to {t}", f"@noapprox (sqrt({x}) to {t}) to fraction"]
+    outs = ctx.run_lines_robust(h, ["eval"], lines, env={"HARNESS_LINE_TIMEOUT_S": "20"})
+    dist = {"rational_root": 0, "irrational_root": 0, "skipped": 0}
+    for i, (x, t, t2) in enumerate(cases):
+        w_o, plain, frac = outs[3 * i], outs[3 * i + 1], outs[3 * i + 2]
+        mw = re.match(r"ok (-?[0-9]+(?:/[0-9]+)?) ", w_o + " ")
+        if not mw or not plain.startswith("ok "):
+            dist["skipped"] += 1; continue
+        w = F(mw.group(1))
+        root = unitroots.is_square(w)
+        marked = plain.startswith("ok approx. ")
+        line = f"sqrt({x}) to {t}"
+        if root is not None:
+            # the root of the QUANTITY is rational although the root of its numeric part in the units as written may not be
+            # (sqrt(10 kWh/N cm) = 600 m): fend may compute it approximately and say so; what it may not do is show an unmarked
+            # number that is not exactly the root
+            dist["rational_root"] += 1
+            dist["rational_root_marked"] = dist.get("rational_root_marked", 0) + (1 if marked else 0)
+            mf = re.match(r"ok (-?[0-9]+(?:/[0-9]+)?) ", frac + " ")
+            if not marked and (not mf or F(mf.group(1)) != root):
+                ctx.spec_failures.append({"stream": "unit-roots", "input": line, "impl": plain[:120] + " | " + frac[:80], "model": f"{root} {t}", "spec": f"({x}) is exactly {w} {t}^2, whose root is {root}: shown without approx. but not exactly that value"})
+        else:
+            dist["irrational_root"] += 1
+            if not marked:
+                ctx.spec_failures.append({"stream": "unit-roots", "input": line, "impl": plain[:160], "model": "approx. ...", "spec": f"({x}) is exactly {w} {t}^2, which is not the square of a rational: the root must be marked approx."})
+    ctx.record_stream("unit-roots", "sqrt of products / quotients of quantities in scaled units (km, kJ, kN, acre, ...) converted to a base-unit target: the exact value of the radicand in the squared "
+                      "target unit (an exact conversion) decides whether the root is rational; unmarked iff it is, and then equal to it", len(lines), len(set(lines)), dist, lines[:3], time.time() - t0)
+
 def run(ctx):
     quick = ctx.tier == "quick"
     h = ctx.harness()
@@ -342,6 +393,7 @@ def run(ctx):
     run_api_trunc(ctx, h, quick)
     run_roots(ctx, h, quick)
     run_mix(ctx, h, quick)
+    run_unit_roots(ctx, h, quick)
     return ctx.finish(rule="quick: q<=12 x 3 random (style, n, base); thorough: q<=40 x 12; roots k<=12; distinct = distinct request lines")
 
 def replay(ctx, rep):
